@@ -829,7 +829,10 @@ impl RecipeTime {
             RecipeTime::Composed {
                 prep_time,
                 cook_time,
-            } => prep_time.iter().chain(cook_time.iter()).sum(),
+            } => prep_time
+                .iter()
+                .chain(cook_time.iter())
+                .fold(0u32, |total, t| total.saturating_add(*t)),
         }
     }
 }
